@@ -17,7 +17,10 @@
 (* invariant HitEqualsRecompute says a hit returns what recomputation      *)
 (* would return now.  Eviction (LRU) only removes entries.  The run loop   *)
 (* protocol (Protocol = TRUE) clears the proposal caches before the first  *)
-(* call that follows a change of alpha.                                    *)
+(* call that follows a change of alpha.  A compute_log_S miss with two or  *)
+(* more children goes through the pair memo for its first pair (an inner   *)
+(* conv2 call: hit or store).  A proposal object is drawn from by its      *)
+(* caller; as implemented drawing leaves the object as it was.             *)
 (***************************************************************************)
 EXTENDS Naturals, FiniteSets, Sequences, Bags, TLC
 
@@ -27,6 +30,9 @@ CONSTANTS Arr,             \* array identities (content digests)
           MaxKids,         \* max length of a children list
           LogSKeyIsSet,    \* deviation: compute_log_S keyed by the SET of digests (collapses duplicates)
           WeakDigest,      \* deviation: the content digest is not injective on the arrays met (two arrays share a digest)
+          HandedDigests,   \* deviation: compute_log_S hands the first two entries of its SORTED digest key to the pair memo
+                           \* as the key of the first pair it combines (the arrays are in call order)
+          StatefulValue,   \* deviation: a proposal object changes when it is drawn from (a hit hands out a worn object)
           KeyHasAlpha,     \* TRUE as implemented; FALSE = deviation (proposal / new-tree keys ignore alpha)
           Protocol         \* TRUE: calls of the proposal caches only happen after a clear that follows the last alpha change
 
@@ -56,13 +62,30 @@ Calls == {<<"logS", s>> : s \in SeqsUpTo(Arr, MaxKids)} \cup {<<"conv2", s>> : s
 IsProposalFn(fn) == fn \in {"prop", "newtree"}
 
 Init == alpha \in Alphas /\ cache = {} /\ dirty = FALSE /\ last = [kind |-> "none"]
+\* the first pair a compute_log_S miss combines, and the key its inner conv2 call uses
+SortedDg(args) == LET B == DgSeq(args)
+                      lo == CHOOSE m \in {B[j] : j \in DOMAIN B} : \A j \in DOMAIN B : m <= B[j]
+                      jlo == CHOOSE j \in DOMAIN B : B[j] = lo
+                      rest == {B[j] : j \in DOMAIN B \ {jlo}}
+                      lo2 == CHOOSE m \in rest : \A y \in rest : m <= y
+                  IN <<lo, lo2>>
+InnerKey(args) == <<"conv2", IF HandedDigests THEN {SortedDg(args)[1], SortedDg(args)[2]} ELSE {Dg(args[1]), Dg(args[2])}>>
+InnerTrue(args, al) == TrueVal("conv2", <<args[1], args[2]>>, al)
+Worn(v) == [fn |-> v.fn, dep |-> v.dep, worn |-> TRUE]
+Handed(e) == IF e.uses > 0 THEN Worn(e.val) ELSE e.val
 Call(c) == LET fn == c[1]  args == c[2]  key == KeyOf(fn, args, alpha)
                hits == {e \in cache : e.key = key}
+               inner == fn = "logS" /\ Len(args) >= 2
+               ihits == IF inner THEN {e \in cache : e.key = InnerKey(args)} ELSE {}
+               \* the value a miss computes: wrong when the inner pair look-up returns another pair's table
+               computed == IF inner /\ ihits # {} /\ (CHOOSE e \in ihits : TRUE).val # InnerTrue(args, alpha)
+                           THEN [fn |-> fn, dep |-> BagOf(args), wrongPairTable |-> TRUE] ELSE TrueVal(fn, args, alpha)
+               newInner == IF inner /\ ihits = {} THEN {[key |-> InnerKey(args), val |-> InnerTrue(args, alpha), uses |-> 0]} ELSE {}
            IN /\ (Protocol /\ IsProposalFn(fn)) => ~dirty
-              /\ IF hits # {} THEN /\ last' = [kind |-> "hit", returned |-> (CHOOSE e \in hits : TRUE).val, recomputed |-> TrueVal(fn, args, alpha)]
+              /\ IF hits # {} THEN /\ last' = [kind |-> "hit", returned |-> Handed(CHOOSE e \in hits : TRUE), recomputed |-> TrueVal(fn, args, alpha)]
                                    /\ UNCHANGED cache
-                 ELSE /\ last' = [kind |-> "miss", returned |-> TrueVal(fn, args, alpha), recomputed |-> TrueVal(fn, args, alpha)]
-                      /\ cache' = cache \cup {[key |-> key, val |-> TrueVal(fn, args, alpha)]}
+                 ELSE /\ last' = [kind |-> "miss", returned |-> computed, recomputed |-> TrueVal(fn, args, alpha)]
+                      /\ cache' = cache \cup newInner \cup {[key |-> key, val |-> computed, uses |-> IF StatefulValue /\ fn = "prop" THEN 1 ELSE 0]}
               /\ UNCHANGED <<alpha, dirty>>
 SetAlpha == \E a \in Alphas \ {alpha} : alpha' = a /\ dirty' = TRUE /\ last' = [kind |-> "alpha"] /\ UNCHANGED cache
 Clear == /\ cache' = {e \in cache : e.key[1] \in {"logS", "conv2"}}     \* clear_proposal_dist_caches leaves the array caches
@@ -71,4 +94,5 @@ Evict == \E e \in cache : cache' = cache \ {e} /\ last' = [kind |-> "evict"] /\ 
 Next == (\E c \in Calls : Call(c)) \/ SetAlpha \/ Clear \/ Evict
 HitEqualsRecompute == last.kind \in {"hit", "miss"} => last.returned = last.recomputed
 OneEntryPerKey == \A e1, e2 \in cache : e1.key = e2.key => e1 = e2
+SmallCache == Cardinality(cache) <= 3      \* state constraint of the three-children runs
 =============================================================================
